@@ -36,6 +36,8 @@ def main (args : List String) : IO UInt32 := do
   | ["compactcalls", path, os, limit] => cmdCompactCalls path (parseNat os) (parseNat limit); return 0
   | ["backup", src, out, ps, root, seq, fl, pgid, txid] =>
     cmdBackup src out (parseNat ps) (parseNat root) (parseNat seq) (parseNat fl) (parseNat pgid) (parseNat txid); return 0
+  | ["metapage", out, ps, root, seq, fl, pgid, txid] =>
+    cmdMetaPage out (parseNat ps) (parseNat root) (parseNat seq) (parseNat fl) (parseNat pgid) (parseNat txid); return 0
   | ["reencode", path, os] => cmdReencode path (parseNat os); return 0
   | ["checkmodel", path, os, kind] => cmdCheckModel path (parseNat os) kind; return 0
   | ["api-verbose"] => cmdApi true; return 0
